@@ -801,3 +801,36 @@ Proof.
     + unfold declared_members, child_members in Hnd. eapply NoDup_app_l; exact Hnd.
     + apply in_map; exact Hch.
 Qed.
+
+(* ------------------------------------------------------------ whole-schema form *)
+(* over a schema all of whose rows are well-formed, the object-level conditions are all
+   that wf_inst asks *)
+Lemma wf_schema_row S c r : wf_schema S = true -> find_row S c = Some r -> wf_row S r = true.
+Proof.
+  intros HS Hf. unfold find_row in Hf. apply find_some in Hf as [Hin _].
+  unfold wf_schema in HS. rewrite forallb_forall in HS. apply HS. exact Hin.
+Qed.
+
+Lemma obj_ok_wf_inst NIL TYPE XMLNS_XS S :
+  wf_schema S = true ->
+  forall i, obj_ok NIL TYPE XMLNS_XS S i = true -> wf_inst NIL TYPE XMLNS_XS S i = true.
+Proof.
+  intros HS.
+  apply (inst_ind' (fun i => obj_ok NIL TYPE XMLNS_XS S i = true -> wf_inst NIL TYPE XMLNS_XS S i = true)).
+  - intros H. exact H.
+  - intros c a t K xa xe IH H. cbn [obj_ok] in H. cbn [wf_inst].
+    destruct (find_row S c) as [r|] eqn:Er; [|discriminate].
+    rewrite (wf_schema_row S c r HS Er). cbn [andb].
+    apply andb_true_iff in H as [H H9]. apply andb_true_iff in H as [H H8].
+    apply andb_true_iff in H as [H H7]. apply andb_true_iff in H as [H H6].
+    apply andb_true_iff in H as [H H5]. apply andb_true_iff in H as [H H4].
+    apply andb_true_iff in H as [H H3]. apply andb_true_iff in H as [H1 H2].
+    rewrite H1, H2, H3, H5, H6, H7, H8, H9. cbn [andb]. rewrite !andb_true_r.
+    rewrite forallb_forall in H4. rewrite Forall_forall in IH.
+    apply forallb_forall. intros [m k] Hin. specialize (H4 _ Hin). cbn in H4. cbn.
+    destruct (find_child_by_member r m) as [ch|]; [|discriminate].
+    apply andb_true_iff in H4 as [Ha Hb]. rewrite Ha. cbn [andb].
+    apply (IH (m, k) Hin). exact Hb.
+Qed.
+
+(* the converse direction is immediate and not needed; wf_inst = wf_row at every node + obj_ok *)
